@@ -67,6 +67,12 @@ def _run_cvc5(smt2: str, timeout_ms: int, strings=True):
 
 def discharge(ob: Obligation, use_cvc5=True, z3_timeout=None, cvc5_timeout=None, retry=True) -> Obligation:
     t0 = time.time()
+    dump = os.environ.get("PYVC_DUMP")
+    if dump and dump in ob.name:      # development aid: write the query of matching obligations
+        d = os.path.join(os.path.dirname(os.path.dirname(os.path.abspath(__file__))), "out", "dump")
+        os.makedirs(d, exist_ok=True)
+        with open(os.path.join(d, "".join(ch if ch.isalnum() or ch in "._-#" else "_" for ch in ob.name)[-150:] + ".smt2"), "w") as f:
+            f.write(ob.smt2())
     if not ob.expect_sat and z3.is_false(z3.simplify(ob.goal)):
         # the clause evaluated to False on this path (trace predicates, undeclared exceptions): it fails unless the
         # path itself is infeasible; "unknown" feasibility counts as feasible (the executor reached the point)
